@@ -70,7 +70,8 @@ def gen_plan(rng):
     # (tract_parse / tracts_edit exist for PLSSDesc subjects only)
     if not kinds:
         kinds = ["parse", "parse_nc"]
-    mode = rng.choice(("free", "repeat", "noncommit"))
+    mode = rng.choice(("free", "repeat", "noncommit", "free", "repeat",
+                       "noncommit", "fail_retry"))
     ops = []
     if cls == "PLSSDesc":
         kw = {}
@@ -141,6 +142,27 @@ def gen_plan(rng):
             kw["layout"] = "copy_all"
         pos = rng.randint(1, len(ops))
         ops.insert(pos, {"op": "parse", "commit": False, "kw": kw})
+    elif mode == "fail_retry":
+        # a committed call that fails INSIDE the parser (the caller runs with
+        # warnings turned into errors and the depths are inconsistent),
+        # followed by the natural retry of the very same call without that:
+        # the failed call is erasable, the retry must do all of its work
+        kw = {"qq_depth_min": 3, "qq_depth_max": rng.choice((1, 2))}
+        if rng.random() < 0.4:
+            kw["clean_qq"] = True
+        r_f = rng.random()
+        if cls == "PLSSDesc" and r_f < 0.4:
+            bad = {"op": "parse_tracts", "config": None, "kw": kw}
+        elif cls == "PLSSDesc" and r_f < 0.6:
+            bad = {"op": "tract_parse", "i": rng.randrange(6), "commit": True,
+                   "kw": kw}
+        else:
+            if cls == "PLSSDesc":
+                kw["parse_qq"] = True
+            bad = {"op": "parse", "commit": True, "kw": kw}
+        pos = rng.randint(1, len(ops))
+        ops[pos:pos] = [dict(copy.deepcopy(bad), warn_error=True),
+                        copy.deepcopy(bad)]
     return {"machine": NAME, "ops": ops[:16]}
 
 
@@ -387,6 +409,13 @@ def _exec(pytrs, subj, op):
     if k == "set_config":
         subj.config = cfg_of(op)
         return None
+    if op.get("warn_error"):
+        # this one call runs the way a caller with `-W error` runs it
+        import warnings
+        with warnings.catch_warnings():
+            warnings.simplefilter("error")
+            return _exec(pytrs, subj, {k_: v_ for k_, v_ in op.items()
+                                       if k_ != "warn_error"})
     if k == "tract_parse":
         n_ = len(subj.tracts)
         if not n_:
